@@ -45,6 +45,14 @@ var properties = map[string][]harnessSpec{
 		{Name: "play.VerifC07Dynamics", Marks: end},
 		{Name: "play.VerifC07Defaults", Marks: end},
 	},
+	"C03": {
+		{Name: "astconv.VerifC03Syllable", Quick: map[string]int{"C03.bass": 1}, Thorough: map[string]int{"C03.bass": 1}, Marks: []string{"end", "end-with-bass", "rejected"}},
+	},
+	"C04": {
+		{Name: "input/ast.VerifC04Parser", Quick: map[string]int{"C04.maxTokens": 8}, Thorough: map[string]int{"C04.maxTokens": 10}, Marks: []string{"end", "accepted", "rejected", "bad-token"}},
+		{Name: "input/ast.VerifC04ScanToken", Quick: map[string]int{"C04.window": 5}, Thorough: map[string]int{"C04.window": 6}, Marks: []string{"end", "token", "eof"}, MustTerminate: true},
+		{Name: "input/ast.VerifC04ParseRunes", Quick: map[string]int{"C04.runes": 4}, Thorough: map[string]int{"C04.runes": 5}, Marks: []string{"end", "accepted", "rejected"}, MustTerminate: true},
+	},
 	"C06": {
 		{Name: "midix.VerifC06AddStep", Quick: map[string]int{"C06.maxTracks": 8}, Thorough: map[string]int{"C06.maxTracks": 32}, Marks: end},
 		{Name: "midix.VerifC06TwoAdds", Quick: map[string]int{"C06.maxTracks2": 4}, Thorough: map[string]int{"C06.maxTracks2": 8}, Marks: end},
@@ -55,7 +63,7 @@ var properties = map[string][]harnessSpec{
 }
 
 func init() {
-	for _, id := range []string{"C03", "C04", "C05", "C08", "C09", "C10", "C11", "C12", "C16", "C17"} {
+	for _, id := range []string{"C05", "C08", "C09", "C10", "C11", "C12", "C16", "C17"} {
 		notApplicable[id] = "check not built yet in this session (work in progress; see DESIGN.md section 4 for the plan)"
 	}
 }
